@@ -76,6 +76,7 @@ def impl_init():
         opts = []
         # the same packet as the sniffed one, but built through the Scapy API with automatic fields left unset
         sn = U.scapy_from_spec(spec)
+        sn = sn.getlayer("IP") or sn.getlayer("IPv6")
         t = sn.getlayer("TCP")
         ip = IP(src=sn.src, dst=sn.dst, ttl=sn.ttl, tos=sn.tos, id=sn.id, flags=sn.flags) if s["v"] == 4 else IPv6(src=sn.src, dst=sn.dst, hlim=sn.hlim, tc=sn.tc, fl=sn.fl)
         tcp = TCP(sport=t.sport, dport=t.dport, seq=t.seq, ack=t.ack, flags=int(t.flags), window=t.window, urgptr=t.urgptr, options=list(t.options))
